@@ -1,0 +1,17 @@
+//go:build verif
+
+package mkarray
+
+// Contracts for the goverif VC generator (/verif). Comment-only file: it adds no code.
+
+// ---- C18: numeric ranges -----------------------------------------------------------------------------------
+// [m..n] with integer bounds i1, i2 (as parsed by strconv.Atoi): every integer from i1 to i2
+// inclusive, ascending or descending, in order, nothing else.
+//@ func rangeToArrayNumber [C18 C19]
+//@   loop 1 invariant forall(k, 0, $idx+1, arrayǂ1[k] == i1 + k) && len(arrayǂ1) == i2 - i1 + 1
+//@   loop 2 invariant forall(k, 0, $idx+1, arrayǂ2[k] == i1 - k) && len(arrayǂ2) == i1 - i2 + 1
+//@   ensures imp(result1, result2 == nil && e1 == nil && e2 == nil)
+//@   ensures imp(result1 && i1 < i2, len(result) == i2 - i1 + 1 && forall(k, 0, len(result), result[k] == i1 + k))
+//@   ensures imp(result1 && i1 > i2, len(result) == i1 - i2 + 1 && forall(k, 0, len(result), result[k] == i1 - k))
+//@   ensures imp(result1 && i1 == i2, len(result) == 1 && result[0] == i1)
+
